@@ -19,6 +19,25 @@ def _is_ext(v: Value, *names: str) -> bool:
     return v[0] == "call" and v[1][0] == "ext" and v[1][1] in names
 
 
+def _absolute(v: Value):
+    """True: the path term is absolute whatever the working directory later is; False: it is relative when its input is;
+    None: not recognised.  (importlib's ModuleSpec.origin is an absolute file name - recorded as an assumption.)"""
+    if _is_ext(v, "os.path.abspath", "os.path.realpath"):
+        return True
+    if _is_ext(v, "os.path.normpath", "os.path.dirname", "os.path.normcase", "os.fspath", "str") and v[2]:
+        return _absolute(v[2][0])
+    if _is_ext(v, "os.path.join") and v[2]:
+        rs = [_absolute(a) for a in v[2]]
+        if any(r is True for r in rs):
+            return True
+        return None if any(r is None for r in rs) else False
+    if v[0] == "attr" and v[2] == "origin":
+        return True
+    if v[0] in ("param", "const"):
+        return False
+    return None
+
+
 _PROGRAM: list = []
 _HELPER_OK: dict = {}
 
@@ -288,8 +307,15 @@ def run(p: Program, rep: Report, tier: str) -> None:
     paths, col, it = run_paths(p, nd, base, inline=_SF_UTILS)
     for pa in paths:
         if pa.exit == "return":
-            if _is_ext(pa.value, *NORMALISERS):
-                rep.ok("R7.4", f"normalize_dir_path returns {show(pa.value)[:70]}")
+            ab = _absolute(pa.value)
+            if _is_ext(pa.value, *NORMALISERS) and ab is True:
+                rep.ok("R7.4", f"normalize_dir_path returns the absolute, normalised {show(pa.value)[:70]}")
+            elif _is_ext(pa.value, *NORMALISERS) and ab is None:
+                rep.undecide("R7.4", f"normalize_dir_path returns {show(pa.value)[:70]}: whether that is an absolute path is not recognised")
+            elif _is_ext(pa.value, *NORMALISERS):
+                rep.violation("R7.4", construct(nd, text=f"return {show(pa.value)[:70]}"), where(nd),
+                              "the configured directory is normalised but stays RELATIVE: every request resolves it against the working directory of that moment "
+                              "(after a chdir the files of a like-named directory elsewhere are served)")
             else:
                 rep.violation("R7.4", construct(nd, text=f"return {show(pa.value)[:70]}"), where(nd), "the configured directory is not made absolute/normalised")
     asserts = [n for n in walk_shallow(init.node) if isinstance(n, ast.Assert)]
